@@ -29,3 +29,66 @@ contract(
     properties=["C08"],
 )
 assumed("str.split", "s.split(None, k) for k >= 0 has min(len(s.split()), k+1) items; k < 0 means no limit (CPython)", "stdlib")
+
+
+# ---------------------------------------------------------------------------------------------------------------
+# parse_directive_text: the line bookkeeping (C08: nothing lost, nothing leaked; C04: body_offset is what callers add to the
+# directive's line).  str.splitlines is left uninterpreted, so the statements hold for any notion of line boundary.
+fields("docutils.parsers.rst:DirectiveClass", option_spec="list[str] | None", has_content="bool")
+fields(f"{M}:_DirectiveOptions", content="str", options="dict[str, str]", warnings="list[ParseWarnings]", has_options="bool")
+fields(f"{M}:DirectiveParsingResult", arguments="list[str]", options="dict[str, str]", body="list[str]", body_offset="int",
+       warnings="list[ParseWarnings]")
+
+
+fields(f"{M}:ParseWarnings", msg="str", lineno="int | None", type="str")
+# `additional_options` is only handed on to _parse_directive_options: an opaque object here
+fields("typing:OptionsMapping", opaque_id="int")
+
+
+@spec(abstract=True, sig=(["str"], "list[str]"))
+def SplitLines(s):
+    return s.splitlines()
+
+
+contract(
+    f"{M}:_parse_directive_options",
+    requires=[],
+    ensures=["fresh(result)"],
+    raises={"MarkupError": []},
+    modifies=["fresh"],
+    types={"directive_class": "DirectiveClass", "additional_options": "OptionsMapping | None"},
+    returns="_DirectiveOptions",
+    trusted=True,
+)
+assumed("_parse_directive_options", "returns a new _DirectiveOptions (content, options, warnings, has_options) or raises MarkupError; "
+        "nothing is assumed about how its `content` relates to the input (its own known findings C08-* live there)", "myst_parser")
+
+contract(
+    f"{M}:parse_directive_text",
+    requires=["directive_class.required_arguments >= 0", "directive_class.optional_arguments >= 0"],
+    ensures=[
+        # A. the body starts on the first line only for a directive that takes no arguments and a non-blank first line;
+        #    then the first line IS the first body line, at offset 0, followed by the remaining lines unchanged
+        "implies(directive_class.required_arguments + directive_class.optional_arguments == 0 and len(first_line.strip()) > 0,"
+        " result.body_offset == 0 and len(result.body) >= 1 and result.body[0] == first_line and len(result.arguments) == 0)",
+        # B. otherwise no line is lost or counted twice: offset + body lines = all lines of the content ...
+        "implies(not (directive_class.required_arguments + directive_class.optional_arguments == 0 and len(first_line.strip()) > 0)"
+        " and not (directive_class.option_spec is not None and len(directive_class.option_spec) > 0),"
+        " result.body == SplitLines(content)[result.body_offset:] and 0 <= result.body_offset <= 1"
+        " and result.body_offset <= len(SplitLines(content)))",
+        # ... and at most ONE blank line is dropped in front of the body, and it is counted
+        "implies(not (directive_class.required_arguments + directive_class.optional_arguments == 0 and len(first_line.strip()) > 0)"
+        " and directive_class.option_spec is not None and len(directive_class.option_spec) > 0,"
+        " result.body_offset + len(result.body) == len(SplitLines(content)))",
+        # C. a directive without arguments gets none
+        "implies(directive_class.required_arguments + directive_class.optional_arguments == 0, len(result.arguments) == 0)",
+        # D. the body never starts with a blank line that was first in the option-less content ... (one is stripped)
+        "implies(not (directive_class.option_spec is not None and len(directive_class.option_spec) > 0)"
+        " and len(first_line.strip()) == 0 and len(SplitLines(content)) > 0 and len(SplitLines(content)[0].strip()) == 0,"
+        " result.body_offset == 1)",
+    ],
+    raises={"MarkupError": []},
+    modifies=["fresh"],
+    types={"directive_class": "DirectiveClass", "additional_options": "OptionsMapping | None"},
+    properties=["C08", "C04"],
+)
